@@ -210,10 +210,20 @@ func ElemDigest(e, n int) int {
 	case EInt:
 		return n
 	case EStr:
-		s := contStr(n)
-		h := len(s) * 1000
-		for i := 0; i < 8 && i < len(s); i++ {
-			h += (i + 1) * int(s[i])
+		// D.str: "s<n>" doubled while it fits, then padded with 'x'; only length and the first 8 bytes count
+		base := fmt.Sprintf("s%d", n)
+		l := max(len(base), contStrLen(n))
+		d := len(base)
+		for d*2 <= l {
+			d *= 2
+		}
+		h := l * 1000
+		for i := 0; i < 8 && i < l; i++ {
+			c := byte('x')
+			if i < d {
+				c = base[i%len(base)]
+			}
+			h += (i + 1) * int(c)
 		}
 		return h
 	case EStruct:
@@ -1036,13 +1046,14 @@ func sortedIntKeys(m map[int]int) []int {
 
 func genContOp(s Src, m *ContModel, local bool, fresh func() int) (ContOp, bool) {
 	var o ContOp
-	switch pick(s, "target", 5, 2, 4) {
+	rot := fresh()
+	switch pickRot(s, "target", rot, 5, 2, 4) {
 	case 0:
-		o.On, o.Kind = "va", vaKinds[s.Intn("vakind", len(vaKinds))]
+		o.On, o.Kind = "va", vaKinds[(s.Intn("vakind", len(vaKinds))+rot)%len(vaKinds)]
 	case 1:
-		o.On, o.Kind = "ca", caKinds[s.Intn("cakind", len(caKinds))]
+		o.On, o.Kind = "ca", caKinds[(s.Intn("cakind", len(caKinds))+rot)%len(caKinds)]
 	default:
-		o.On, o.Kind = "d", dKinds[s.Intn("dkind", len(dKinds))]
+		o.On, o.Kind = "d", dKinds[(s.Intn("dkind", len(dKinds))+rot)%len(dKinds)]
 	}
 	if !contOpAllowed(o, m.Elem, local) {
 		return o, false
